@@ -26,7 +26,8 @@ ASSUMPTIONS = [
 ]
 OPERATORS = ["same_key", "reversed_pair", "ws_pair", "ws_reversed_pair", "ws_fs_density", "ws_formula_signature",
              "formula_other_params", "table_section_twice", "table_section_ws", "table_named_like_formula",
-             "table_named_like_builtin", "same_key_embed_density"]
+             "table_named_like_builtin", "same_key_embed_density", "adp_same_key", "adp_reversed_pair", "adp_ws_reversed_pair",
+             "formula_label_other_case", "table_label_other_case"]
 REQUIRED = dict(("op:" + o, 6) for o in OPERATORS)
 OTHER_VALUE = "as.constant 7.25"
 
@@ -37,10 +38,12 @@ def _case(draw, op):
         targets = ["setfl_fs", "DL_POLY_EAM_fs", "excel_eam_fs"]
     elif op == "same_key_embed_density":
         targets = sorted(gen.EAM_TARGETS)
+    elif op.startswith("adp_"):
+        targets = ["eam_adp"]
     else:
         targets = None
     m = draw(gen.any_model(targets, 2, 3, depth=1, tables=False))
-    if op in ("ws_formula_signature", "formula_other_params", "table_named_like_formula") and not m["env"]["custom"]:
+    if op in ("ws_formula_signature", "formula_other_params", "table_named_like_formula", "formula_label_other_case") and not m["env"]["custom"]:
         m["env"]["custom"] = draw(gen.custom_forms(2, 1, min_forms=1))
     if op.startswith("table_") and not m["env"]["table"]:
         m["env"]["table"] = [draw(gen.table_form("tab1", 6))]
@@ -59,7 +62,7 @@ def strata(tier):
 
 def budget(tier):
     if tier == "quick":
-        return {"examples": 200}
+        return {"examples": 240}
     return {"examples": 900, "shards": 16}
 
 
@@ -101,6 +104,38 @@ def duplicate(case):
         s, k = c
         put(s, k, OTHER_VALUE, k)
         return secs, "%s entry %r defined twice" % (s[0], k)
+    if op.startswith("adp_"):
+        # the dipole and quadrupole functions of an ADP model are given per pair of species, like pair potentials
+        cands = [(s, k) for s in secs if s[0] in ("EAM-ADP-Dipole", "EAM-ADP-Quadrupole") for k, _ in s[1]]
+        if op != "adp_same_key":
+            cands = [(s, k) for s, k in cands if k.split("-")[0] != k.split("-")[1]]
+        c = pick(cands)
+        if not c:
+            return None
+        s, k = c
+        a, b = k.split("-")
+        nk = k if op == "adp_same_key" else "%s-%s" % (b, a) if op == "adp_reversed_pair" else "%s%s-%s%s" % (b, ws, ws, a)
+        put(s, nk, OTHER_VALUE, k)
+        return secs, "%s entry %r also given as %r" % (s[0], k, nk)
+    if op in ("formula_label_other_case", "table_label_other_case"):
+        # formulas are evaluated by exprtk, whose symbols are case-insensitive: f and F are one name there
+        if op == "formula_label_other_case":
+            pf0 = _sec(secs, "Potential-Form")
+            k = pick([k for k, _ in pf0[1]]) if pf0 else None
+            if not k:
+                return None
+            name, rest = k.split("(", 1)
+            nk = (name.upper() if name.upper() != name else name.lower()) + "(" + rest
+            put(pf0, nk, "%s * 2.0 + 7.25" % rest.rstrip(")").split(",")[0], k)
+            return secs, "custom form %r also declared as %r" % (k, nk)
+        tabs0 = [s for s in secs if s[0].startswith("Table-Form:")]
+        t = pick(tabs0)
+        if not t:
+            return None
+        name = t[0].split(":", 1)[1]
+        nn = name.upper() if name.upper() != name else name.lower()
+        secs.insert(secs.index(t) + (0 if case["before"] else 1), ["Table-Form:" + nn, [["xy", "0.0 1.0 1.0 2.0 2.0 0.5 3.0 0.25 4.0 0.0"]]])
+        return secs, "table form %r also declared as %r" % (name, nn)
     if op in ("reversed_pair", "ws_pair", "ws_reversed_pair"):
         cands = [k for k, _ in pair[1]] if pair else []
         if op != "ws_pair":
